@@ -12,6 +12,8 @@
      - RefCell<T>, Cell<T>, UnsafeCell<T> : Send <-> T : Send ; never Sync
      - Vec / Box / Option / Range / PhantomData<T> : as T
      - Rc<T> : neither ;  Arc<T> : Send, Sync <-> T : Send + Sync ;  Mutex<T> : Send, Sync <-> T : Send
+     - RwLock<T>, OnceLock<T> : Send <-> T : Send ; Sync <-> T : Send + Sync
+     - OnceCell<T> : as Cell<T> (Send <-> T : Send ; never Sync)
      - fn pointers, primitives, str, String : both
      - dyn Trait (+ Send) (+ Sync) : exactly the listed auto traits
      - a type the translator could not read (TOpaque) : neither (conservative)
@@ -55,11 +57,12 @@ Inductive ty :=
 | TRaw (mutable : bool) (t : ty)
 | TRawNN (t : ty)             (* NonNull<T> *)
 | TRefCell (t : ty)
-| TCell (t : ty)              (* Cell / UnsafeCell *)
+| TCell (t : ty)              (* Cell / UnsafeCell / OnceCell *)
 | TVec (t : ty) | TBox (t : ty) | TOption (t : ty) | TRange (t : ty)
 | TArray (t : ty) | TSlice (t : ty)
 | TPhantom (t : ty)
 | TRc (t : ty) | TArc (t : ty) | TMutex (t : ty)
+| TRwLock (t : ty)            (* RwLock / OnceLock *)
 | TTuple (ts : list ty)
 | TFnPtr
 | TDyn (send sync : bool)
@@ -112,6 +115,7 @@ Fixpoint subst (ls : list lifetime) (args : list ty) (t : ty) : ty :=
   | TPhantom t => TPhantom (subst ls args t)
   | TRc t => TRc (subst ls args t) | TArc t => TArc (subst ls args t)
   | TMutex t => TMutex (subst ls args t)
+  | TRwLock t => TRwLock (subst ls args t)
   | TTuple ts => TTuple (map (subst ls args) ts)
   | TFnPtr => TFnPtr
   | TDyn a b => TDyn a b
@@ -141,7 +145,7 @@ Fixpoint ty_eqb (a b : ty) : bool :=
   | TRawNN t, TRawNN t' | TRefCell t, TRefCell t' | TCell t, TCell t' | TVec t, TVec t'
   | TBox t, TBox t' | TOption t, TOption t' | TRange t, TRange t' | TArray t, TArray t'
   | TSlice t, TSlice t' | TPhantom t, TPhantom t' | TRc t, TRc t' | TArc t, TArc t'
-  | TMutex t, TMutex t' => ty_eqb t t'
+  | TMutex t, TMutex t' | TRwLock t, TRwLock t' => ty_eqb t t'
   | TTuple ts, TTuple ts' =>
       (fix go (xs ys : list ty) : bool :=
          match xs, ys with
@@ -189,6 +193,7 @@ Fixpoint holds_in (fuel : nat) (ds : list decl) (asm : trait -> nat -> bool)
     | TVec t' | TBox t' | TOption t' | TRange t' | TArray t' | TSlice t' | TPhantom t' => rec tr t'
     | TArc t' => rec Send t' && rec Sync t'
     | TMutex t' => rec Send t'
+    | TRwLock t' => match tr with Send => rec Send t' | Sync => rec Send t' && rec Sync t' end
     | TTuple ts => forallb (rec tr) ts
     | TDyn s y => match tr with Send => s | Sync => y end
     | TApp n ls args =>
@@ -234,7 +239,7 @@ Fixpoint clean (t : ty) : bool :=
   | TRaw _ _ | TRawNN _ | TRc _ | TOpaque _ => false
   | TParam _ | TPrim _ | TFnPtr | TDyn _ _ => true
   | TRef _ _ t | TRefCell t | TCell t | TVec t | TBox t | TOption t | TRange t | TArray t
-  | TSlice t | TPhantom t | TArc t | TMutex t => clean t
+  | TSlice t | TPhantom t | TArc t | TMutex t | TRwLock t => clean t
   | TTuple ts => forallb clean ts
   | TApp _ _ ts => forallb clean ts
   end.
@@ -248,7 +253,7 @@ Fixpoint lts_scoped (n : nat) (t : ty) : bool :=
   | TRef l _ t => lt_scoped n l && lts_scoped n t
   | TParam _ | TPrim _ | TFnPtr | TDyn _ _ | TOpaque _ => true
   | TRaw _ t | TRawNN t | TRefCell t | TCell t | TVec t | TBox t | TOption t | TRange t | TArray t
-  | TSlice t | TPhantom t | TRc t | TArc t | TMutex t => lts_scoped n t
+  | TSlice t | TPhantom t | TRc t | TArc t | TMutex t | TRwLock t => lts_scoped n t
   | TTuple ts => forallb (lts_scoped n) ts
   | TApp _ ls ts => forallb (lt_scoped n) ls && forallb (lts_scoped n) ts
   end.
@@ -259,7 +264,7 @@ Fixpoint mentions_lt (k : nat) (t : ty) : bool :=
   | TRef l _ t => lifetime_eqb l (LParam k) || mentions_lt k t
   | TParam _ | TPrim _ | TFnPtr | TDyn _ _ | TOpaque _ => false
   | TRaw _ t | TRawNN t | TRefCell t | TCell t | TVec t | TBox t | TOption t | TRange t | TArray t
-  | TSlice t | TPhantom t | TRc t | TArc t | TMutex t => mentions_lt k t
+  | TSlice t | TPhantom t | TRc t | TArc t | TMutex t | TRwLock t => mentions_lt k t
   | TTuple ts => existsb (mentions_lt k) ts
   | TApp _ ls ts => existsb (lifetime_eqb (LParam k)) ls || existsb (mentions_lt k) ts
   end.
@@ -269,7 +274,7 @@ Fixpoint resolved (ds : list decl) (t : ty) : bool :=
   match t with
   | TParam _ | TPrim _ | TFnPtr | TDyn _ _ | TOpaque _ => true
   | TRef _ _ t | TRaw _ t | TRawNN t | TRefCell t | TCell t | TVec t | TBox t | TOption t
-  | TRange t | TArray t | TSlice t | TPhantom t | TRc t | TArc t | TMutex t => resolved ds t
+  | TRange t | TArray t | TSlice t | TPhantom t | TRc t | TArc t | TMutex t | TRwLock t => resolved ds t
   | TTuple ts => forallb (resolved ds) ts
   | TApp n _ ts =>
       match lookup ds n with
@@ -305,6 +310,40 @@ Definition pins (ds : list decl) (n : str) : bool :=
   | None => false
   | Some d => Nat.ltb 0 (dlts d) && existsb (fun f => mentions_lt 0 (snd f)) (dfields d)
   end.
+
+(* a value of the CONCRETE type t stores a non-'static reference (directly, inside a std wrapper, inside
+   PhantomData, or in a field of a declared struct / enum after substituting the type arguments):
+   `TensorRange<f64, &Tensor<f64>>` does (field `source : S`), `TensorRange<f64, Tensor<f64>>` does
+   not.  Such a value cannot outlive the referent and excludes conflicting uses of it while alive.
+   `seen` = the applied types being unfolded (recursive enums). *)
+Fixpoint stores_ref_in (fuel : nat) (ds : list decl) (seen : list ty) (t : ty) : bool :=
+  match fuel with
+  | O => false
+  | S f =>
+    match t with
+    | TRef LStatic _ t' => stores_ref_in f ds seen t'      (* a 'static reference bounds nothing *)
+    | TRef _ _ _ => true
+    | TParam _ | TPrim _ | TFnPtr | TDyn _ _ | TOpaque _ => false
+    | TRaw _ t' | TRawNN t' | TRefCell t' | TCell t' | TVec t' | TBox t' | TOption t' | TRange t'
+    | TArray t' | TSlice t' | TPhantom t' | TRc t' | TArc t' | TMutex t' | TRwLock t' =>
+        stores_ref_in f ds seen t'
+    | TTuple ts => existsb (stores_ref_in f ds seen) ts
+    | TApp n ls args =>
+        if existsb (ty_eqb t) seen then false
+        else match lookup ds n with
+             | None => false
+             | Some d => existsb (fun fld => stores_ref_in f ds (t :: seen) (subst ls args (snd fld)))
+                                 (dfields d)
+             end
+    end
+  end.
+Definition stores_ref (ds : list decl) (t : ty) : bool := stores_ref_in FUEL ds [] t.
+
+(* the by-value view adaptors keep their source as a field of the parameter's own type: the k-th
+   type parameter S is stored as `fld : S` -- so Adaptor<.., &'a X, ..> carries the borrow &'a X
+   and Adaptor<.., X, ..> owns X *)
+Definition stores_param (ds : list decl) (n fld : str) (k : nat) : bool :=
+  match field_ty ds n fld with Some (TParam j) => Nat.eqb j k | _ => false end.
 
 Definition lookup_trait (ts : list trait_decl) (n : str) : option trait_decl :=
   find (fun t => str_eqb (tname t) n) ts.
